@@ -223,10 +223,7 @@ var stateMonotone = map[string]string{
 	"Modules.Path":                   "configuration: directories of files that were read; AddPath de-duplicates",
 	"Modules.pathMap":                "configuration: see Path",
 	"Modules.byNS":                   "positive cache cleared by Modules.add whenever a module is filed (STATE.RESET/add); guarded by nsMu",
-	"Modules.expandingGrouping":      "in-progress set: every insertion is deleted again before the inserting activation returns, so it is empty between runs",
 	"typeDictionary.dict":            "load-monotone: typedefs of accepted statements, keyed by their node (adopt)",
-	"typeDictionary.resolving":       "in-progress set: deleted by a defer in the inserting activation",
-	"identityDictionary.dict":        "rebuilt by every run: each identity is re-filed under its module:name key (same key, same value)",
 	"Import.Module":                  "re-linked by every run (includes is reset, so include() visits every module again)",
 	"Include.Module":                 "re-linked by every run",
 	"Module.Modules":                 "set by add to the owning set; constant afterwards",
@@ -310,6 +307,8 @@ func ruleStateReset(c *Ctx) []Obligation {
 		switch {
 		case reset[k] != "":
 			obs = append(obs, ok(R, con, reset[k], "stored with a fresh value at the top of Process, before the first call that reads it"))
+		case c.inProgressBalanced(k) != "":
+			obs = append(obs, ok(R, con, c.Pos(proc.Pos()), c.inProgressBalanced(k)))
 		case c.rebuiltInWriter(k) != "":
 			obs = append(obs, ok(R, con, c.Pos(proc.Pos()), c.rebuiltInWriter(k)))
 		case stateMonotone[k] != "":
@@ -345,6 +344,92 @@ func ruleStateReset(c *Ctx) []Obligation {
 	return obs
 }
 
+// inProgressBalanced: the field is a map used as an in-progress set: every insertion m[k] = true is undone by
+// delete(m, k) with the same key, either deferred in the inserting function or on every path from the
+// insertion to a return. Then the set is empty whenever no activation is running, in particular between runs.
+func (c *Ctx) inProgressBalanced(key string) string {
+	parts := strings.SplitN(key, ".", 2)
+	owner := c.Named("yang", parts[0])
+	if owner == nil || len(parts) != 2 {
+		return ""
+	}
+	f := FieldVar(owner, parts[1])
+	if f == nil {
+		return ""
+	}
+	if _, isMap := f.Type().Underlying().(*types.Map); !isMap {
+		return ""
+	}
+	isDeleteOf := func(com *ssa.CallCommon, k ssa.Value) bool {
+		b, isB := com.Value.(*ssa.Builtin)
+		if !isB || b.Name() != "delete" || len(com.Args) != 2 {
+			return false
+		}
+		if _, df, _ := loadedField(com.Args[0]); df != f {
+			return false
+		}
+		return sameKey(com.Args[1], k)
+	}
+	n := 0
+	for _, fn := range c.Funcs {
+		if fn.Pkg == nil || shortPkg(fn.Pkg.Pkg.Path()) != "yang" {
+			continue
+		}
+		for _, mu := range mapUpdatesOnField(fn, f) {
+			n++
+			balanced := false
+			var dels []*ssa.BasicBlock
+			eachInstr(fn, func(in ssa.Instruction) {
+				switch x := in.(type) {
+				case *ssa.Defer:
+					if isDeleteOf(&x.Call, mu.Key) && (dominates(mu, x) && x.Block() == mu.Block() || dominates(x, mu) || x.Block() == mu.Block()) {
+						// deferred in the same straight-line stretch as the insertion: runs on every exit after it
+						if x.Block() == mu.Block() {
+							balanced = true
+						}
+					}
+				case *ssa.Call:
+					if isDeleteOf(&x.Call, mu.Key) {
+						dels = append(dels, x.Block())
+					}
+				}
+			})
+			if !balanced && len(dels) > 0 {
+				avoid := map[*ssa.BasicBlock]bool{}
+				for _, d := range dels {
+					avoid[d] = true
+				}
+				leak := false
+				if !avoid[mu.Block()] {
+					for _, b := range fn.Blocks {
+						if _, isR := b.Instrs[len(b.Instrs)-1].(*ssa.Return); isR && b != fn.Recover {
+							if blockReaches(mu.Block(), b, avoid) {
+								leak = true
+							}
+						}
+					}
+				} else {
+					// same block: the delete must come after the insertion
+					leak = true
+					for _, in := range mu.Block().Instrs {
+						if call, isC := in.(*ssa.Call); isC && isDeleteOf(&call.Call, mu.Key) && instrIndex(in) > instrIndex(mu) {
+							leak = false
+						}
+					}
+				}
+				balanced = !leak
+			}
+			if !balanced {
+				return ""
+			}
+		}
+	}
+	if n == 0 {
+		return ""
+	}
+	return fmt.Sprintf("in-progress set: each of its %d insertion(s) is undone by delete with the same key, deferred or on every path to a return, so the set is empty between runs", n)
+}
+
 // rebuiltInWriter: the field is written by exactly one function, which first clears it (a nil store inside
 // a loop that visits the objects) and only afterwards, in later loops, stores anything else into it.
 func (c *Ctx) rebuiltInWriter(key string) string {
@@ -356,6 +441,40 @@ func (c *Ctx) rebuiltInWriter(key string) string {
 	f := FieldVar(owner, parts[1])
 	if f == nil {
 		return ""
+	}
+	// a map field: every insertion happens in one function, after that function stored a fresh map
+	if _, isMap := f.Type().Underlying().(*types.Map); isMap {
+		var w *ssa.Function
+		var ups []*ssa.MapUpdate
+		single := true
+		for _, fn := range c.Funcs {
+			if fn.Pkg == nil || shortPkg(fn.Pkg.Pkg.Path()) != "yang" {
+				continue
+			}
+			for _, mu := range mapUpdatesOnField(fn, f) {
+				if w != nil && w != fn {
+					single = false
+				}
+				w = fn
+				ups = append(ups, mu)
+			}
+		}
+		if single && w != nil {
+			for _, st := range storesToField(w, f) {
+				if _, isMake := st.Val.(*ssa.MakeMap); !isMake {
+					continue
+				}
+				all := true
+				for _, mu := range ups {
+					if !dominates(st, mu) {
+						all = false
+					}
+				}
+				if all {
+					return fmt.Sprintf("rebuilt by its only writer %s: a fresh map is stored before the first of its %d insertion(s)", c.FnName(w), len(ups))
+				}
+			}
+		}
 	}
 	var writer *ssa.Function
 	for _, fn := range c.Funcs {
